@@ -477,9 +477,16 @@ fn panicking_group_subscriber_battery(rep: &mut Report) {
   }
   struct Groups {
     log: Rc<RefCell<Vec<String>>>,
+    /// the consumer of the stream of groups fails while it is handed key 1 for the first time
+    fail_on_first_odd: bool,
   }
   impl Observer<KeyObservable<i64, Subject<'static, V, E>>, E> for Groups {
     fn next(&mut self, g: KeyObservable<i64, Subject<'static, V, E>>) {
+      if self.fail_on_first_odd && g.key == 1 {
+        self.fail_on_first_odd = false;
+        self.log.borrow_mut().push("announcement of 1 failed".into());
+        panic!("the consumer of the groups fails on an announcement");
+      }
       self.log.borrow_mut().push(format!("announce {}", g.key));
       let key = g.key;
       std::mem::forget(g.actual_subscribe(Picky { key, log: self.log.clone() }));
@@ -500,7 +507,7 @@ fn panicking_group_subscriber_battery(rep: &mut Report) {
     let id = format!("panicking:{}", k);
     let log: Rc<RefCell<Vec<String>>> = Default::default();
     let mut src = Subject::<'static, V, E>::default();
-    std::mem::forget(src.clone().group_by::<_, i64, Subject<'static, V, E>>(|v: &V| v.int() % 2).actual_subscribe(Groups { log: log.clone() }));
+    std::mem::forget(src.clone().group_by::<_, i64, Subject<'static, V, E>>(|v: &V| v.int() % 2).actual_subscribe(Groups { log: log.clone(), fail_on_first_odd: false }));
     for v in &script {
       let mut s2 = src.clone();
       let v = *v;
@@ -527,6 +534,48 @@ fn panicking_group_subscriber_battery(rep: &mut Report) {
     let completes = got.iter().filter(|l| l.ends_with("complete")).count();
     if items_got != want.iter().collect::<Vec<_>>() || completes != seen_keys.len() + 1 {
       rep.violation("wrong_groups", "group_by[a group subscriber panics]", &id, json!({"script": script, "observed": got, "expected_before_the_terminals": want, "expected_terminals": seen_keys.len() + 1}));
+    } else {
+      rep.nontrivial.insert(hash64(&id));
+    }
+  }
+  // the consumer of the stream of groups fails while it is handed a group (caught, the program
+  // goes on): the item that carried the failed announcement is lost with it, the key is
+  // announced again with its next item and that group gets everything from then on
+  for (k, script) in [vec![2i64, 1, 3, 4, 5], vec![1, 1, 2], vec![2, 1, 4, 3]].into_iter().enumerate() {
+    rep.evaluations += 1;
+    rep.count("cases_with_a_group_subscriber_that_panics", 1);
+    let id = format!("panicking:announce:{}", k);
+    let log: Rc<RefCell<Vec<String>>> = Default::default();
+    let mut src = Subject::<'static, V, E>::default();
+    std::mem::forget(src.clone().group_by::<_, i64, Subject<'static, V, E>>(|v: &V| v.int() % 2).actual_subscribe(Groups { log: log.clone(), fail_on_first_odd: true }));
+    for v in &script {
+      let mut s2 = src.clone();
+      let v = *v;
+      let _ = std::panic::catch_unwind(std::panic::AssertUnwindSafe(move || s2.next(V::I(v))));
+    }
+    src.complete();
+    let mut want: Vec<String> = vec![];
+    let mut seen_keys: Vec<i64> = vec![];
+    let mut failed_once = false;
+    for v in &script {
+      let key = v % 2;
+      if key == 1 && !failed_once {
+        failed_once = true;
+        want.push("announcement of 1 failed".into());
+        continue;
+      }
+      if !seen_keys.contains(&key) {
+        seen_keys.push(key);
+        want.push(format!("announce {}", key));
+      }
+      want.push(format!("g{} {}", key, v));
+    }
+    let got = log.borrow().clone();
+    rep.events += got.len() as u64;
+    let items_got: Vec<&String> = got.iter().filter(|l| !l.contains("complete")).collect();
+    let completes = got.iter().filter(|l| l.ends_with("complete")).count();
+    if items_got != want.iter().collect::<Vec<_>>() || completes != seen_keys.len() + 1 {
+      rep.violation("wrong_groups", "group_by[the consumer of the groups panics on an announcement]", &id, json!({"script": script, "observed": got, "expected_before_the_terminals": want, "expected_terminals": seen_keys.len() + 1}));
     } else {
       rep.nontrivial.insert(hash64(&id));
     }
